@@ -543,8 +543,8 @@ def prove_system_solved(W, S, name, stock0):
     props=["C03", "C09", "C10", "C13", "C15"],
     targets=STOCK_TARGETS,
     skeletons=lambda tier: [{"extra": e, "solver": "manual"} for e in range(0, (3 if tier == "thorough" else 2))]
-    + [{"extra": 0, "solver": "lapack", "sizes": []}, {"extra": 1, "solver": "lapack", "sizes": [1]}, {"extra": 1, "solver": "lapack", "sizes": [2]}]
-    + ([{"extra": 2, "solver": "lapack", "sizes": [1, 2]}, {"extra": 2, "solver": "lapack", "sizes": [2, 2]}] if tier == "thorough" else []),
+    + [{"extra": 0, "solver": "lapack", "sizes": []}, {"extra": 1, "solver": "lapack", "sizes": [1]}]
+    + ([{"extra": 1, "solver": "lapack", "sizes": [2]}, {"extra": 2, "solver": "lapack", "sizes": [1, 2]}] if tier == "thorough" else []),
     stubs=["flodym.lifetime_models.LifetimeModel.sf", "flodym.lifetime_models.LifetimeModel.pdf", "flodym.lifetime_models.UnevenTimeDim.interval_lengths", "scipy.linalg.solve_triangular"],
     note="manual solver: loop invariant over a symbolic number of rows; lapack solver: contract of solve_triangular assumed, loop over the non-time indices unrolled for concrete extra sizes (bounded: 1-2 items per extra dimension); precondition of C10: sf[c,c] > 0",
 )
@@ -593,3 +593,92 @@ def u_stock_driven(W, sk):
     if check_tables(W, S, "compute", inflow, stock_rep=True) is None:
         return
     check_balance_from_cohorts(W, S, "compute", inflow)
+
+
+# ----------------------------------------------------------------------------------------
+# get_stock_balance / check_stock_balance (C03, last sentence)
+
+
+@unit(
+    "stocks.stock_balance",
+    props=["C03"],
+    targets=["flodym.stocks.Stock.get_stock_balance", "flodym.stocks.Stock.check_stock_balance", "flodym.stocks.Stock._to_annual"],
+    skeletons=lambda tier: [{"extra": e, "case": c} for e in (0, 1) for c in ("balanced", "perturbed")],
+    stubs=["flodym.lifetime_models.UnevenTimeDim.interval_lengths"],
+    note="balanced: arrays satisfying the balance equation for every t (hypothesis installed as a trigger) must give a zero balance and pass check_stock_balance; perturbed: an entry whose annual balance exceeds the 1-unit threshold must make check_stock_balance raise",
+)
+def u_stock_balance(W, sk):
+    S = Setup(W, "flow", sk["extra"])
+    s = S.s
+    n = S.n
+    if W.symbolic:
+        stock, inflow, outflow = S.rd(s.stock.values), S.rd(s.inflow.values), S.rd(s.outflow.values)
+        resid = lambda t, *r: inflow(t, *r) - outflow(t, *r) - (stock(t, *r) - W.ite(t > 0, stock(t - 1, *r), 0)) / S.dtk(t)
+        if sk["case"] == "balanced":
+            zn = to_int(n)
+            es = [to_int(e) for e in S.esizes]
+
+            def fact(t, *r):
+                rng = [t >= 0, t < zn] + [z3.And(a >= 0, a < e) for a, e in zip(r, es)]
+                return z3.Implies(z3.And(*rng), to_real(resid(wrap(t), *[wrap(a) for a in r])) == 0)
+
+            W.c.add_trigger("stock", fact)
+            W.c.add_trigger("inflow", fact)
+        else:
+            t0 = W.fresh_int("pt", 0, n)
+            r0 = tuple(W.fresh_int(f"pr{j}", 0, e) for j, e in enumerate(S.esizes))
+            v = resid(t0, *r0)
+            W.assume(core.sor(v > 1, v < -1))
+    else:
+        import numpy as np
+
+        if sk["case"] == "balanced":
+            s.compute()  # a computed flow-driven stock is balanced (proved in stocks.flow_driven.compute)
+        else:
+            s.compute()
+            t0 = W.rng.randrange(n)
+            idx = (t0,) + tuple(W.rng.randrange(e) for e in S.esizes)
+            s.stock.values[idx] += (1.5 + W.rng.random()) * S.dt[t0] * W.rng.choice([-1, 1]) * (2 if t0 < n - 1 else 1)
+        stock, inflow, outflow = S.rd(s.stock.values), S.rd(s.inflow.values), S.rd(s.outflow.values)
+        resid = lambda t, *r: inflow(t, *r) - outflow(t, *r) - (stock(t, *r) - (stock(t - 1, *r) if t > 0 else 0.0)) / S.dtk(t)
+    snaps = SL.snapshot(W, [s.stock, s.inflow, s.outflow])
+    out = W.call(lambda: s.get_stock_balance())
+    W.prove("get_stock_balance.returns", out.kind == "return", detail=repr(out))
+    if out.kind != "return":
+        return
+    B = out.value
+    bal = S.rd(B)
+    rngs = [(0, n)] + S.extra_ranges()
+    W.forall_range("get_stock_balance.is_annual_residual", rngs, lambda idx: W.num_eq(bal(*idx), resid(*idx)), detail="balance(t) = inflow(t) - outflow(t) - (stock(t) - stock(t-1)) / dt(t)")
+    if sk["case"] == "balanced":
+        W.forall_range("get_stock_balance.zero_for_balanced_arrays", rngs, lambda idx: W.num_eq(bal(*idx), 0))
+    out2 = W.call(lambda: s.check_stock_balance())
+    if W.symbolic:
+        # the terms check_stock_balance decides on, rebuilt from the returned balance (canonical => identical)
+        A = symnp.sym_sum(symnp.sym_abs(B), axis=0)
+        M = symnp.sym_max(A) if isinstance(A, symnp.SymArr) else A
+        col = lambda r: (wrap(A.at(*r)) if isinstance(A, symnp.SymArr) else A)
+        absb = lambda t, *r: abs(bal(t, *r))
+        if sk["case"] == "balanced":
+            # every column sum is zero, and the maximum is attained at some column
+            if isinstance(A, symnp.SymArr):
+                info = symnp.reduction_info(M)
+                wr = tuple(wrap(z3.Int(f"w_{str(core.unwrap(M).decl().name())}_{j}")) for j in range(A.ndim))
+            else:
+                wr = ()
+            W.lemma_sum_zero("check_stock_balance.column_sum_zero", 0, n, lambda t: absb(t, *wr))
+        else:
+            # column r0 sums to at least |balance(t0, r0)| > 1, and the maximum dominates it
+            f = lambda t: absb(t, *r0)
+            W.lemma_sum_split("check.perturbed.split1", 0, t0, n, f)
+            W.lemma_sum_split("check.perturbed.split2", t0, t0 + 1, n, f)
+            W.lemma_sum_unfold_last("check.perturbed.single", t0, t0 + 1, f)
+            W.lemma_sum_nonneg("check.perturbed.left", 0, t0, f)
+            W.lemma_sum_nonneg("check.perturbed.right", t0 + 1, n, f)
+            if isinstance(A, symnp.SymArr):
+                W.c.assume(symnp.reduction_bound_fact(M, r0), why="definition of max")
+    if sk["case"] == "balanced":
+        W.prove("check_stock_balance.accepts_balanced_arrays", out2.kind == "return", detail=repr(out2))
+    else:
+        SL.check_raises(W, "check_stock_balance.rejects_perturbed_arrays", out2, RuntimeError)
+    SL.check_unchanged(W, "stock_balance", snaps)
